@@ -77,7 +77,9 @@ var c15GrowKinds = []c15GrowKind{
 		func(x uint64, j int) parquet.Value { return parquet.DoubleValue(math.Float64frombits(x)) },
 		func(a, b parquet.Value) bool { return math.Float64bits(a.Double()) == math.Float64bits(b.Double()) }},
 	{"float", func() parquet.Type { return parquet.FloatType }, 4,
-		func(x uint64, j int) parquet.Value { return parquet.FloatValue(math.Float32frombits(uint32(x ^ x>>32))) },
+		func(x uint64, j int) parquet.Value {
+			return parquet.FloatValue(math.Float32frombits(uint32(x ^ x>>32)))
+		},
 		func(a, b parquet.Value) bool { return math.Float32bits(a.Float()) == math.Float32bits(b.Float()) }},
 	{"uint64", func() parquet.Type { return parquet.Uint(64).Type() }, 8,
 		func(x uint64, j int) parquet.Value { return parquet.Int64Value(int64(x)) },
